@@ -62,10 +62,10 @@ def _passive_law(name, a, kw, cache=False):
     return keys, probs
 
 
-def _owned_passive_answer(ctl, name, a, kw):
+def _owned_passive_answer(ctl, name, a, kw, law=None):
     from mc.choice import multiset_alternatives
 
-    keys, probs = _passive_law(name, a, kw)
+    keys, probs = law if law is not None else _passive_law(name, a, kw)
     shots = int(kw["shots"])
     if shots == 1:
         return [keys[ctl.choose(probs, label="owned." + name)]]
@@ -108,14 +108,18 @@ def recording(ctl, passive="real"):
         saved[name] = fn
 
         def wrapped(*a, **kw):
+            law = None
             if passive == "owned":
-                out = _owned_passive_answer(ctl, name, a, kw)
+                kp = _passive_law(name, a, kw)
+                out = _owned_passive_answer(ctl, name, a, kw, kp)
+                law = list(zip(*kp))
             else:
                 out = fn(*a, **kw)
             modes = kw.get("modes")
             ctl.record(
                 "passive_sampler",
                 name=name,
+                law=law,
                 shots=kw.get("shots"),
                 modes=None if modes is None else tuple(int(m) for m in modes),
                 postselect=tuple(tuple(int(x) for x in t) for t in kw.get("postselect_data", ((), ()))[:2]),
